@@ -30,6 +30,7 @@ type TypeDef struct {
 	Values  []EnumVal  `json:"values"`
 	Inputs  []InputVal `json:"inputs"`
 	URL     string     `json:"url"`
+	Tags    []string   `json:"tags"` // applied custom directives (type-system directive applications)
 }
 
 type FieldDef struct {
@@ -45,14 +46,16 @@ type InputVal struct {
 	Name string `json:"name"`
 	Desc string `json:"desc"`
 	Type Ref    `json:"type"`
-	Def  Val    `json:"def"`
-	Dep  Dep    `json:"dep"`
+	Def  Val      `json:"def"`
+	Dep  Dep      `json:"dep"`
+	Tags []string `json:"tags"`
 }
 
 type EnumVal struct {
-	Name string `json:"name"`
-	Desc string `json:"desc"`
-	Dep  Dep    `json:"dep"`
+	Name string   `json:"name"`
+	Desc string   `json:"desc"`
+	Dep  Dep      `json:"dep"`
+	Tags []string `json:"tags"`
 }
 
 type DirDef struct {
@@ -244,7 +247,15 @@ func inputSDL(iv InputVal) string {
 	if iv.Def.T != "x" {
 		s += " = " + iv.Def.SDL()
 	}
-	return s + iv.Dep.SDL()
+	return s + tagsSDL(iv.Tags) + iv.Dep.SDL()
+}
+
+func tagsSDL(tags []string) string {
+	s := ""
+	for _, t := range tags {
+		s += " @" + t
+	}
+	return s
 }
 
 func argsSDL(args []InputVal, indent string) string {
@@ -304,34 +315,30 @@ func (s *Schema) SDL() string {
 			if len(t.Ifaces) > 0 {
 				b.WriteString(" implements " + strings.Join(t.Ifaces, " & "))
 			}
-			b.WriteString(" {\n")
+			b.WriteString(tagsSDL(t.Tags) + " {\n")
 			for _, f := range t.Fields {
 				b.WriteString(descSDL(f.Desc, "  "))
-				b.WriteString("  " + f.Name + argsSDL(f.Args, "  ") + ": " + f.Type.SDL())
-				for _, tag := range f.Tags {
-					b.WriteString(" @" + tag)
-				}
-				b.WriteString(f.Dep.SDL() + "\n")
+				b.WriteString("  " + f.Name + argsSDL(f.Args, "  ") + ": " + f.Type.SDL() + tagsSDL(f.Tags) + f.Dep.SDL() + "\n")
 			}
 			b.WriteString("}\n\n")
 		case "UNION":
-			b.WriteString("union " + t.Name + " = " + strings.Join(t.Members, " | ") + "\n\n")
+			b.WriteString("union " + t.Name + tagsSDL(t.Tags) + " = " + strings.Join(t.Members, " | ") + "\n\n")
 		case "ENUM":
-			b.WriteString("enum " + t.Name + " {\n")
+			b.WriteString("enum " + t.Name + tagsSDL(t.Tags) + " {\n")
 			for _, v := range t.Values {
 				b.WriteString(descSDL(v.Desc, "  "))
-				b.WriteString("  " + v.Name + v.Dep.SDL() + "\n")
+				b.WriteString("  " + v.Name + tagsSDL(v.Tags) + v.Dep.SDL() + "\n")
 			}
 			b.WriteString("}\n\n")
 		case "INPUT_OBJECT":
-			b.WriteString("input " + t.Name + " {\n")
+			b.WriteString("input " + t.Name + tagsSDL(t.Tags) + " {\n")
 			for _, iv := range t.Inputs {
 				b.WriteString(descSDL(iv.Desc, "  "))
 				b.WriteString("  " + inputSDL(iv) + "\n")
 			}
 			b.WriteString("}\n\n")
 		case "SCALAR":
-			b.WriteString("scalar " + t.Name)
+			b.WriteString("scalar " + t.Name + tagsSDL(t.Tags))
 			if t.URL != "" {
 				b.WriteString(" @specifiedBy(url: " + quote(t.URL) + ")")
 			}
